@@ -558,6 +558,28 @@ fn stream_seam_sweep(rep: &mut Report) {
     }
 }
 
+/// Tunnel through one of the two front-ends; `small_rcvbuf`: our side of the connection has a tiny receive buffer.
+async fn open_tunnel(front: &str, proxy: std::net::SocketAddr, dest: std::net::SocketAddr, small_rcvbuf: bool) -> Result<tokio::net::TcpStream, String> {
+    use tokio::io::{AsyncReadExt, AsyncWriteExt};
+    let mut s = if small_rcvbuf { crate::lx::connect_small_rcvbuf(proxy).await? } else { tokio::net::TcpStream::connect(proxy).await.map_err(|e| e.to_string())? };
+    if front == "socks5" {
+        return crate::lx::socks5_connect_on(s, dest).await;
+    }
+    s.write_all(format!("CONNECT {dest} HTTP/1.1\r\nHost: {dest}\r\n\r\n").as_bytes()).await.map_err(|e| e.to_string())?;
+    let mut acc = vec![];
+    let mut b = [0u8; 1];
+    while !acc.ends_with(b"\r\n\r\n") {
+        match tokio::time::timeout(Duration::from_secs(5), s.read(&mut b)).await {
+            Ok(Ok(1)) => acc.push(b[0]),
+            _ => return Err(format!("CONNECT reply {:?}", String::from_utf8_lossy(&acc))),
+        }
+    }
+    if !acc.starts_with(b"HTTP/1.1 200") {
+        return Err(format!("CONNECT reply {:?}", String::from_utf8_lossy(&acc)));
+    }
+    Ok(s)
+}
+
 /// LX supplement: the real forwarding loops of socks5.rs, http_proxy.rs and handler.rs end to end
 /// through TLS: N bytes to an echo target and back, on two concurrent connections with distinct
 /// patterns (the second connection reuses the first one's session).
@@ -634,6 +656,62 @@ fn lx_part(rep: &mut Report, thorough: bool) {
                     out.push((format!("{front}, {n} bytes each way, connection {c} of 2 concurrent"), r));
                 }
             }
+        }
+        // ---- back-pressure: a slow consumer at either end (tiny receive buffer, starts reading after 400 ms) and
+        //      more data than the kernel buffers absorb: the forwarding loops see partial and pending writes
+        let big = if thorough { 24_000_000usize } else { 12_000_000usize };
+        for front in ["socks5", "http-connect"] {
+            // upload to a slow target
+            let slow = start_target("127.0.0.1", TargetMode::SlowSink, vec![]).await;
+            let proxy = if front == "socks5" { lx.socks.unwrap() } else { lx.http.unwrap() };
+            let name = format!("{front}, upload of {big} bytes to a slow target");
+            let res: Option<String> = async {
+                let mut s = match open_tunnel(front, proxy, slow.addr, false).await {
+                    Ok(s) => s,
+                    Err(e) => return Some(format!("cannot establish the tunnel: {e}")),
+                };
+                let data = pat_vec(77, 0, 0, big);
+                if tokio::time::timeout(Duration::from_secs(60), s.write_all(&data)).await.map(|r| r.is_err()).unwrap_or(true) {
+                    return Some("the upload could not be written within 60 s".into());
+                }
+                let _ = s.flush().await;
+                let got = slow.wait(0, 20_000, |t| t.received.len() >= big).await.map(|t| t.received).unwrap_or_default();
+                if got == data {
+                    None
+                } else {
+                    let first_bad = got.iter().zip(data.iter()).position(|(a, b)| a != b).unwrap_or(got.len().min(data.len()));
+                    Some(format!("the target received {} of {big} bytes, first difference at offset {first_bad}", got.len()))
+                }
+            }
+            .await;
+            out.push((name, res));
+            // download by a slow application
+            let data = pat_vec(78, 1, 0, big);
+            let source = start_target("127.0.0.1", TargetMode::SendAndHalfClose, data.clone()).await;
+            let name = format!("{front}, download of {big} bytes by a slow application");
+            let res: Option<String> = async {
+                let mut s = match open_tunnel(front, proxy, source.addr, true).await {
+                    Ok(s) => s,
+                    Err(e) => return Some(format!("cannot establish the tunnel: {e}")),
+                };
+                tokio::time::sleep(Duration::from_millis(400)).await;
+                let mut got = Vec::with_capacity(big);
+                let mut buf = vec![0u8; 65536];
+                while got.len() < big {
+                    match tokio::time::timeout(Duration::from_secs(10), s.read(&mut buf)).await {
+                        Ok(Ok(k)) if k > 0 => got.extend_from_slice(&buf[..k]),
+                        _ => break,
+                    }
+                }
+                if got == data {
+                    None
+                } else {
+                    let first_bad = got.iter().zip(data.iter()).position(|(a, b)| a != b).unwrap_or(got.len().min(data.len()));
+                    Some(format!("the application received {} of {big} bytes, first difference at offset {first_bad}", got.len()))
+                }
+            }
+            .await;
+            out.push((name, res));
         }
         Ok(out)
     });
